@@ -81,6 +81,9 @@ func ioRoutes() []ioRoute {
 	}
 }
 
+// the identity of the injected error: plain, or wrapping a context error although the call's context is alive
+var errIdents = []string{"", "canceled", "", "deadline"}
+
 type ioReplay struct {
 	Items []fsItem   `json:"items"`
 	Route string     `json:"route"`
@@ -155,7 +158,7 @@ func checkC14(r *evid.Run) {
 	r.Count("transitions", res.Generated)
 	fmt.Printf("model MC_Io/%s: %d distinct states, %d generated, %.1fs\n", cfg, res.Distinct, res.Generated, res.Wall.Seconds())
 	r.Set("exhaustive", true)
-	r.Set("rule", "every forest up to the bound x {reader failing after every byte offset of the document; writer refusing (nothing / half accepted, with an error) every Write call index up to one past the last} x every output route (text, JSON, YAML, TOML, dry-run; From-Markdown iterator and slice generators, From-Root; simple and massive) plus walk/verify/mkdir-dry-run for the reader; non-trivial = at least 2 items")
+	r.Set("rule", "every forest up to the bound x {reader failing after every byte offset of the document; writer refusing (nothing / half / everything accepted, with an error; permanently or once) every Write call index up to one past the last} x every output route (text, JSON, YAML, TOML, dry-run; From-Markdown iterator and slice generators, From-Root; simple and massive) plus walk/verify/mkdir-dry-run for the reader; the injected error is plain or wraps context.Canceled / DeadlineExceeded; non-trivial = at least 2 items")
 	r.Assume("a writer that accepts fewer bytes than requested WITHOUT returning an error breaks the io.Writer contract and is not exercised")
 }
 
@@ -211,6 +214,7 @@ func checkReaderFault(r *evid.Run, pool *wproto.Pool, s *ioState, c *tok.Conc, r
 			rq := fillReq(rt, s.Items, c)
 			o := off
 			rq.ReadFail = &o
+			rq.ErrWrap = errIdents[(s.N+off)%len(errIdents)]
 			rp := pool.Call(rq, 30*time.Second)
 			r.Count("real_calls", 1)
 			if rp.Class == "panic" || rp.Class == "hang" {
@@ -261,6 +265,7 @@ func checkWriterFault(r *evid.Run, pool *wproto.Pool, s *ioState, c *tok.Conc, r
 		for k := 1; k <= free.WCalls+1; k++ {
 			rq2 := rq
 			rq2.WFault = &wproto.WFault{How: s.How, At: k}
+			rq2.ErrWrap = errIdents[(s.N+k)%len(errIdents)]
 			rp := pool.Call(rq2, 30*time.Second)
 			r.Count("real_calls", 1)
 			if rp.Class == "panic" || rp.Class == "hang" {
